@@ -566,6 +566,33 @@ example : (run false ⟨true, false, 0⟩ 2 (fun i p => i == 1 && p == .worker) 
     ∧ content (final false ⟨true, false, 0⟩ 2 (fun i p => i == 1 && p == .worker)
       [.newWriter, .add 1, .commit, .add 2, .add 3, .add 4, .commit]).metaSegs = [2, 3, 4] := by decide
 
+/-- **No acknowledged document is silently dropped by a successful commit** — the full form of
+what `C11_commit_ok_complete_counterexample` refutes for the pinned code. With `restartWorkers`:
+in every faulty run, whatever failed before and without any rollback, a `commit` that returns
+`Ok` publishes both registers and every document that is queued for the workers (every document
+acknowledged since the last worker failure or commit). -/
+theorem C11_commit_ok_publishes_every_queued_document (sy : Bool) (fx : Fixes) (hfx : fx.restartWorkers = true)
+    (cap : Nat) (F : Nat → Plan) (cs : List Call) (f : Plan) :
+    let s := final sy fx cap F cs
+    ∀ w, s.writer = some w → (call sy fx cap f s .commit).2 = .ok →
+      content (call sy fx cap f s .commit).1.metaSegs = content w.committed ++ content w.uncommitted ++ w.queue := by
+  intro s w hw hok
+  have hfit : Fit fx s := Fit_run sy fx cap F 0 init cs (Fit_init fx)
+  simp only [Fit, hw, wOk, hfx] at hfit
+  have hwk : w.workers = true := by
+    have : w.workers = true ∧ (fx.rollbackKeeps = false ∨ w.guard = true) := by simpa using hfit
+    exact this.1
+  exact commit_ok_publishes hw hwk hok
+
+example : content (final false ⟨true, false, 0⟩ 4 (fun i p => i == 1 && p == .worker)
+    [.newWriter, .add 1, .commit, .add 2, .commit]).metaSegs = [2] := by decide
+
+/-
+Open (not in the Lean model): `delete_term` / `delete_query` — their content effect is judged only
+by the harness oracle; several indexing workers (the model has one worker handing over one or
+several segments per transaction).
+-/
+
 /-- **No call ever panics, and a failed rollback can be retried.** For a code whose `rollback`
 takes the lock guard out of `self` only after the replacement writer was built
 (`Gen.ROLLBACK_TAKES_GUARD_AFTER_NEW = 1`): in every faulty run every writer owns its guard, no
